@@ -2,6 +2,7 @@
 import sys
 
 from sa import report, rules_marks as RM, rules_read as RD, rules_reader as RR, rules_sibling as RSB
+from sa import rules_extra as RX
 
 
 def run(ctx, repo):
@@ -27,7 +28,8 @@ def run(ctx, repo):
     RM.r_event_marks(ctx, repo)
     RSB.r_parser_lookahead(ctx, repo)
     RSB.r_simple_key_limit(ctx, repo)
-
+    RX.r_mark_from_position(ctx, repo)
+    RX.r_docmarker_column0(ctx, repo)
 
 if __name__ == '__main__':
     sys.exit(report.main('C09', 'other', run))
